@@ -206,12 +206,20 @@ def run(ctx, chk):
                   "i64, u64 or f64, selected by the tracked result type; unknown type -> generic rendering")
     V = ("sym", "V0")
     WC_ = raw.where("disas_constant", None, "disassemble.rs")
-    for ty, signed_cast, fl, variant in (("u32", "i32", "f32", "LiteralBit32"), ("u64", "i64", "f64", "LiteralBit64")):
+    from ..tree import small_literals as _sl2, big_literals as _bl2
+    _fdc = ctx.rspirv.fn("rspirv::binary::disassemble", "disas_constant")
+    _wl = sorted(w_ for w_ in (_sl2(_fdc["body"]) | _bl2(_fdc["body"])) if 0 < w_ <= 128)
+    cases5 = []
+    for ty, signed_cast, fl, variant, widths in (("u32", "i32", "f32", "LiteralBit32", sorted({8, 16, 32} | {w_ for w_ in _wl if w_ <= 32})),
+                                                 ("u64", "i64", "f64", "LiteralBit64", sorted({64} | {w_ for w_ in _wl if 32 < w_ <= 64}))):
+        for W_ in widths:
+            cases5.append((ty, signed_cast, fl, variant, W_))
+    for ty, signed_cast, fl, variant, W_ in cases5:
         operand_ = ("enum", "Operand::" + variant, [V])
-        for name, lt, lit_piece in (("signed integer", ("enum", "Type::Integer", [("sym", "W"), True]), ("as", V, signed_cast)),
-                                    ("unsigned integer", ("enum", "Type::Integer", [("sym", "W"), False]), V),
-                                    ("float", ("enum", "Type::Float", [("sym", "W")]), ("from_bits", fl, V))):
-            inst = "OpConstant with a %s bit pattern of a %s type" % (ty, name)
+        for name, lt, lit_piece in (("signed integer", ("enum", "Type::Integer", [W_, True]), ("as", V, signed_cast)),
+                                    ("unsigned integer", ("enum", "Type::Integer", [W_, False]), V),
+                                    ("float", ("enum", "Type::Float", [W_]), ("from_bits", fl, V))):
+            inst = "OpConstant with a %s bit pattern of a %d-bit %s type" % (ty, W_, name)
             try:
                 r = disx.constant(ctx, True, lt, operand_)
                 got = disx.pieces(r) if not (isinstance(r, tuple) and r and r[0] == "panic") else r
